@@ -350,6 +350,17 @@ func HTMLEscape(dst *bytes.Buffer, src []byte) {
 
 // Valid reports whether data is a valid JSON encoding.
 func Valid(data []byte) bool {
+	// a Decoder skips one ',' or ':' before a value (it may follow a Token call);
+	// a JSON text cannot start with one
+	for _, c := range data {
+		if c == ' ' || c == '\t' || c == '\n' || c == '\r' {
+			continue
+		}
+		if c == ',' || c == ':' {
+			return false
+		}
+		break
+	}
 	var v interface{}
 	decoder := NewDecoder(bytes.NewReader(data))
 	// numbers are only checked against the grammar: "1e999" is valid JSON
